@@ -37,6 +37,7 @@ type c01Rule struct {
 type c01Event struct {
 	Name     string            `json:"name"`
 	Kind     string            `json:"kind"`
+	Segs     []string          `json:"segs,omitempty"` // explicit kind segments (a segment may contain a dot); overrides Kind
 	State    map[string]c01Val `json:"state,omitempty"`
 	Wait     bool              `json:"wait,omitempty"`
 	Scope    int               `json:"scope"`
@@ -109,11 +110,22 @@ func c01GenEvent(r *simrt.RNG, p *c01Plan, depth int, containers bool) c01Event 
 			e.Children = append(e.Children, c01GenEvent(r, p, depth+1, containers))
 		}
 	}
+	if r.Bool(0.06) {
+		// a kind whose segmentation differs from its dotted spelling (Go API only):
+		// ["a.b"] is one segment and must not be confused with ["a", "b"]
+		ks := strings.Split(e.Kind, ".")
+		if len(ks) >= 2 {
+			i := r.Intn(len(ks) - 1)
+			merged := append(append([]string{}, ks[:i]...), ks[i]+"."+ks[i+1])
+			e.Segs = append(merged, ks[i+2:]...)
+		}
+	}
 	return e
 }
 
 func c01Gen(r *simrt.RNG, tier string) interface{} {
 	p := &c01Plan{Workers: 1 + r.Intn(4)}
+	family := false
 	containers := r.Bool(0.25)
 	nr := 1 + r.Intn(12)
 	many := r.Bool(0.04)
@@ -151,6 +163,22 @@ func c01Gen(r *simrt.RNG, tier string) interface{} {
 			}
 		}
 		p.Rules = append(p.Rules, ru)
+	}
+	if !many && r.Bool(0.12) {
+		// family: several stateless rules behind one wildcard leaf plus rules on the exact
+		// kinds, events of those kinds added concurrently without waiting (workers >= 2)
+		p.Rules = nil
+		p.Workers = 2 + r.Intn(3)
+		k := []int{3, 5, 6, 7, 9}[r.Intn(5)]
+		for i := 0; i < k; i++ {
+			p.Rules = append(p.Rules, c01Rule{Name: fmt.Sprintf("w%d", i), Kinds: []string{"a.*"}, Scope: []string{}, Prio: r.Intn(3)})
+		}
+		for i, kd := range []string{"a.a", "a.b", "a.c", "*.b", "*.*"} {
+			if r.Bool(0.7) {
+				p.Rules = append(p.Rules, c01Rule{Name: fmt.Sprintf("x%d", i), Kinds: []string{kd}, Scope: []string{}, Prio: r.Intn(3)})
+			}
+		}
+		family = true
 	}
 	for i := range p.Rules {
 		if r.Bool(0.15) && len(p.Rules) > 1 {
@@ -193,6 +221,13 @@ func c01Gen(r *simrt.RNG, tier string) interface{} {
 			e := c01GenEvent(r, p, 0, containers)
 			if many && r.Bool(0.7) {
 				e.Kind = manyKind
+				e.Segs = nil
+			}
+			if family {
+				e.Kind = []string{"a.a", "a.b", "a.c"}[r.Intn(3)]
+				e.Segs = nil
+				e.Wait = r.Bool(0.2)
+				e.PauseNs = 0
 			}
 			evs = append(evs, e)
 		}
@@ -365,6 +400,26 @@ func (v c01Val) goValue() interface{} {
 
 func (v c01Val) container() bool { return v.T == "list" || v.T == "map" }
 
+func (e *c01Event) segs() []string {
+	if len(e.Segs) > 0 {
+		return e.Segs
+	}
+	return strings.Split(e.Kind, ".")
+}
+
+func refKindMatchSegs(pattern string, ks []string) bool {
+	ps := strings.Split(pattern, ".")
+	if len(ps) != len(ks) {
+		return false
+	}
+	for i := range ps {
+		if ps[i] != "*" && ps[i] != ks[i] {
+			return false
+		}
+	}
+	return true
+}
+
 func refKindMatch(pattern, kind string) bool {
 	ps, ks := strings.Split(pattern, "."), strings.Split(kind, ".")
 	if len(ps) != len(ks) {
@@ -467,7 +522,7 @@ func refExpected(p *c01Plan, ev *c01Event) (must map[string]bool, open map[strin
 		ru := &p.Rules[i]
 		km := false
 		for _, pat := range ru.Kinds {
-			if refKindMatch(pat, ev.Kind) {
+			if refKindMatchSegs(pat, ev.segs()) {
 				km = true
 			}
 		}
@@ -554,7 +609,7 @@ func c01Run(p *c01Plan) {
 		for k, v := range in.ev.State {
 			st[k] = v.goValue()
 		}
-		return engine.NewEvent(in.ev.Name, strings.Split(in.ev.Kind, "."), st)
+		return engine.NewEvent(in.ev.Name, in.ev.segs(), st)
 	}
 	var addEvent func(in *c01Inst, m engine.Monitor, wait bool)
 	action := func(name string) engine.RuleAction {
@@ -629,7 +684,7 @@ func c01Run(p *c01Plan) {
 			must, _ := refExpected(p, in.ev)
 			if len(must) > 0 {
 				simrt.Fail("oracle:event-skipped", "event-skipped",
-					"event %q of kind %s state %v was reported as not triggering (nil monitor) although rule(s) %v match it", in.ev.Name, in.ev.Kind, in.ev.State, keysOf(must))
+					"event %q of kind %s state %v was reported as not triggering (nil monitor) although rule(s) %v match it", in.ev.Name, fmt.Sprintf("%q", in.ev.segs()), in.ev.State, keysOf(must))
 			}
 		}
 		if wait && res != nil {
@@ -704,6 +759,6 @@ func c01CheckInst(p *c01Plan, in *c01Inst, when string) {
 				sig = "firing/fired-more-than-once"
 			}
 		}
-		simrt.Fail("oracle:firing", sig, "%s: event %q kind %s state %v scope %v: %s", when, in.ev.Name, in.ev.Kind, in.ev.State, p.Scopes[in.ev.Scope], strings.Join(diff, "; "))
+		simrt.Fail("oracle:firing", sig, "%s: event %q kind %s state %v scope %v: %s", when, in.ev.Name, fmt.Sprintf("%q", in.ev.segs()), in.ev.State, p.Scopes[in.ev.Scope], strings.Join(diff, "; "))
 	}
 }
